@@ -1,4 +1,4 @@
-import UmProofs.RouteE2EExample
+import UmProofs.RouteE2EReach
 /-!
 # C02 — Synced proxies route every key to the broker-designated master
 
@@ -235,6 +235,107 @@ theorem C02_no_third_node (cfg : RouteCfg) (v : VCluster) (net : Addr → Option
       rw [hr] at hx
       rcases hx with h | h <;> cases h
 
+
+
+/-! ## over every bounded run of the broker -/
+
+/-- **C02, stable slot, every reachable broker state.**  For every operation list whose prefixes
+satisfy C01's size bound, every cluster of the resulting store, every migration limit: if every
+proxy of the cluster is reachable and has installed — through `encodeFor`, a faithful wire
+(`C02_wire_plain/compressed`) and an accepted `set_meta` (`C02_install`) — the view
+`get_proxy_by_address` serves for it (`SyncedWith`), then for the view `v` that
+`get_cluster_by_name` serves, every slot no pending range covers has exactly one covering master
+range, and from every proxy of the cluster the client is served by that master's node at that
+master's proxy after at most one MOVED.
+Hypotheses that are not broker invariants, kept explicit: the cluster name is not empty
+(`ClusterName::try_from("")` succeeds; `validName` only ties `v` to the query), and the two nodes of
+every proxy of the cluster have different addresses (`NodesDistinct`, finding F02a). -/
+theorem C02_stable_reachable (ops : List Op) (hb : ∀ k, Plan.PlanBound (run (ops.take k)))
+    (name : String) (limit : Nat) (cl : Cluster) (hc : (run ops).findCluster name = some cl)
+    (hvalid : validName name = true) (hname : name ≠ "") (hnodes : NodesDistinct cl)
+    (cfg : RouteCfg) (har : cfg.activeRedirection = false) (net : Addr → Option ProxyState)
+    (hsync : SyncedWith cfg (run ops) cl limit net) :
+    ∃ v, clusterView (run ops) name limit = .ok (some v) ∧ PartitionView v ∧
+      ∀ s, s < SLOT_NUM → ¬ PendingAt v s →
+        ∃ n₀ sr₀, Cov v s n₀ sr₀ ∧ sr₀.tag = Tag.none ∧ (∀ n sr, Cov v s n sr → n = n₀ ∧ sr = sr₀) ∧
+          ∀ start ∈ cl.proxyAddrs,
+            ∃ k, k ≤ 1 ∧ EndsAt (follow net s FOLLOW_FUEL start) k n₀.proxy n₀.address := by
+  obtain ⟨v, hs⟩ := served_of_run ops hb name limit cl hc hvalid hname hnodes
+  refine ⟨v, hs.cluster, hs.ok.part, ?_⟩
+  intro s hlt hp
+  obtain ⟨n₀, sr₀, h1, h2, h3, h4⟩ := C02_stable cfg v net hs.ok har (synced_of_syncedWith hs hsync) s hlt hp
+  exact ⟨n₀, sr₀, h1, h2, h3, fun start hst => h4 start ((hs.proxies start).mpr hst)⟩
+
+/-- **C02, slot under migration, every reachable broker state.**  Same setting; additionally
+source and destination proxy of the slot's migration differ (not a broker invariant either: a
+migration between the two halves of one chunk whose masters sit on one proxy is not excluded by
+the store invariants).  Conclusions as in `C02_migrating`, for every start proxy of the cluster. -/
+theorem C02_migrating_reachable (ops : List Op) (hb : ∀ k, Plan.PlanBound (run (ops.take k)))
+    (name : String) (limit : Nat) (cl : Cluster) (hc : (run ops).findCluster name = some cl)
+    (hvalid : validName name = true) (hname : name ≠ "") (hnodes : NodesDistinct cl)
+    (cfg : RouteCfg) (har : cfg.activeRedirection = false) (net : Addr → Option ProxyState)
+    (hsync : SyncedWith cfg (run ops) cl limit net) :
+    ∃ v, clusterView (run ops) name limit = .ok (some v) ∧ PartitionView v ∧ v.name = name ∧
+      ∀ s, s < SLOT_NUM → PendingAt v s →
+        ∃ nS srM info nD srI, MigCov v s nS srM info nD srI ∧
+          (info.srcProxy ≠ info.dstProxy →
+            ∃ pS pD stS stD, net info.srcProxy = some pS ∧ net info.dstProxy = some pD ∧
+              stateOf pS ⟨v.name, srM⟩ = some stS ∧ stateOf pD ⟨v.name, srI⟩ = some stD ∧
+              (Consistent stS (pS.blocking.contains info.srcNode) stD = true →
+                ∀ start ∈ cl.proxyAddrs,
+                  ∃ k, k ≤ 2 ∧
+                    if stD = .preCheck then
+                      EndsAt (follow net s FOLLOW_FUEL start) k info.srcProxy info.srcNode
+                    else
+                      (follow net s FOLLOW_FUEL start = (k, .exec info.dstProxy info.dstNode) ∨
+                        (stS = .preSwitch ∧
+                          follow net s FOLLOW_FUEL start = (k, .held info.srcProxy info.srcNode))))) := by
+  obtain ⟨v, hs⟩ := served_of_run ops hb name limit cl hc hvalid hname hnodes
+  refine ⟨v, hs.cluster, hs.ok.part, hs.vname, ?_⟩
+  intro s hlt hp
+  obtain ⟨nS, srM, info, nD, srI, hm, hrest⟩ :=
+    C02_migrating cfg v net hs.ok har (synced_of_syncedWith hs hsync) s hlt hp
+  refine ⟨nS, srM, info, nD, srI, hm, ?_⟩
+  intro hd
+  obtain ⟨pS, pD, stS, stD, a1, a2, a3, a4, a5⟩ := hrest hd
+  exact ⟨pS, pD, stS, stD, a1, a2, a3, a4, fun hcons start hst => a5 hcons start ((hs.proxies start).mpr hst)⟩
+
+/-- **C02, safety, every reachable broker state**: whatever the migration phases, a synced proxy of
+the cluster executes or queues a command only on a master the served view places on that proxy and
+that shows a range covering the slot -/
+theorem C02_no_third_node_reachable (ops : List Op) (hb : ∀ k, Plan.PlanBound (run (ops.take k)))
+    (name : String) (limit : Nat) (cl : Cluster) (hc : (run ops).findCluster name = some cl)
+    (hvalid : validName name = true) (hname : name ≠ "") (hnodes : NodesDistinct cl)
+    (cfg : RouteCfg) (har : cfg.activeRedirection = false) (net : Addr → Option ProxyState)
+    (hsync : SyncedWith cfg (run ops) cl limit net) :
+    ∃ v, clusterView (run ops) name limit = .ok (some v) ∧
+      ∀ s, s < SLOT_NUM →
+        (∀ n sr i, Cov v s n sr → sr.tag = Tag.migrating i → i.srcProxy ≠ i.dstProxy) →
+        ∀ a ∈ cl.proxyAddrs, ∀ p, net a = some p → ∀ x,
+          (routeWithMigration p none (some s) = .exec x ∨ routeWithMigration p none (some s) = .held x) →
+          ∃ n sr, Cov v s n sr ∧ n.proxy = a ∧ n.address = x := by
+  obtain ⟨v, hs⟩ := served_of_run ops hb name limit cl hc hvalid hname hnodes
+  refine ⟨v, hs.cluster, ?_⟩
+  intro s hlt hdist a ha p hn x hx
+  exact C02_no_third_node cfg v net hs.ok har (synced_of_syncedWith hs hsync) s hlt hdist a
+    ((hs.proxies a).mpr ha) p hn x hx
+
+
+/-- non-vacuity of the reachable forms: a concrete bounded run (two proxies, `add_cluster c 4`) with
+every proxy synced from scratch satisfies every hypothesis -/
+example : ∃ v, clusterView (run runOps) "c" 0 = .ok (some v) ∧ PartitionView v := by
+  obtain ⟨v, hs⟩ := served_of_run runOps runOps_bound "c" 0 runCluster runCluster_found (by decide) (by decide)
+    runCluster_nodes
+  obtain ⟨v', h1, h2, _⟩ := C02_stable_reachable runOps runOps_bound "c" 0 runCluster runCluster_found (by decide)
+    (by decide) runCluster_nodes {} rfl (freshNet (run runOps) 0) (syncedWith_fresh hs)
+  exact ⟨v', h1, h2⟩
+
+example : ∃ v, clusterView (run runOps) "c" 0 = .ok (some v) ∧ v.name = "c" := by
+  obtain ⟨v, hs⟩ := served_of_run runOps runOps_bound "c" 0 runCluster runCluster_found (by decide) (by decide)
+    runCluster_nodes
+  obtain ⟨v', h1, _, h3, _⟩ := C02_migrating_reachable runOps runOps_bound "c" 0 runCluster runCluster_found (by decide)
+    (by decide) runCluster_nodes {} rfl (freshNet (run runOps) 0) (syncedWith_fresh hs)
+  exact ⟨v', h1, h3⟩
 
 /-! ## what the hypothesis on node addresses is for (finding F02a) -/
 
